@@ -34,7 +34,7 @@ def plan(prop, tier):
     legs = [{'hashseed': 0, 'pyflags': []}, {'hashseed': 0, 'pyflags': ['-O']}, {'hashseed': 0, 'pyflags': ['-OO']}]
     if tier == 'quick':
         return {'runs': 1400, 'cap': 90.0, 'det_runs': 15, 'legs': legs}
-    return {'cap': 180.0, 'budget_s': 900, 'legs': [dict(l, hashseed=h) for h in (0, 1) for l in legs]}
+    return {'cap': 360.0, 'budget_s': 900, 'legs': [dict(l, hashseed=h) for h in (0, 1) for l in legs]}
 
 
 def generate(prop, seed, tier):
